@@ -1,5 +1,24 @@
 # contributed to mpmath by Kristopher L. Kuhlman, February 2017
 
+def _precision_safe(method):
+    """The two steps of a rule object change the working precision of the
+    calling context (calc_laplace_parameter raises it, calc_time_domain_solution
+    puts it back). If a step fails, the precision is put back to what it was
+    before calc_laplace_parameter was called."""
+    def wrapped(self, *args, **kwargs):
+        if method.__name__ == 'calc_laplace_parameter':
+            orig = self.ctx.prec
+        else:
+            orig = getattr(self, 'prec_orig', self.ctx.prec)
+        try:
+            return method(self, *args, **kwargs)
+        except:
+            self.ctx.prec = orig
+            raise
+    wrapped.__name__ = method.__name__
+    wrapped.__doc__ = method.__doc__
+    return wrapped
+
 class InverseLaplaceTransform(object):
     r"""
     Inverse Laplace transform methods are implemented using this
@@ -36,6 +55,7 @@ class InverseLaplaceTransform(object):
 
 class FixedTalbot(InverseLaplaceTransform):
 
+    @_precision_safe
     def calc_laplace_parameter(self,t,**kwargs):
         r"""The "fixed" Talbot method deforms the Bromwich contour towards
         `-\infty` in the shape of a parabola. Traditionally the Talbot
@@ -142,6 +162,7 @@ class FixedTalbot(InverseLaplaceTransform):
 
         # NB: p is complex (mpc)
 
+    @_precision_safe
     def calc_time_domain_solution(self,fp,t,manual_prec=False):
         r"""The fixed Talbot time-domain solution is computed from the
         Laplace-space function evaluations using
@@ -217,6 +238,7 @@ class FixedTalbot(InverseLaplaceTransform):
 
 class Stehfest(InverseLaplaceTransform):
 
+    @_precision_safe
     def calc_laplace_parameter(self,t,**kwargs):
         r"""
         The Gaver-Stehfest method is a discrete approximation of the
@@ -300,6 +322,7 @@ class Stehfest(InverseLaplaceTransform):
 
         return V
 
+    @_precision_safe
     def calc_time_domain_solution(self,fp,t,manual_prec=False):
         r"""Compute time-domain Stehfest algorithm solution.
 
@@ -351,6 +374,7 @@ class Stehfest(InverseLaplaceTransform):
 
 class deHoog(InverseLaplaceTransform):
 
+    @_precision_safe
     def calc_laplace_parameter(self,t,**kwargs):
         r"""the de Hoog, Knight & Stokes algorithm is an
         accelerated form of the Fourier series numerical
@@ -432,6 +456,7 @@ class deHoog(InverseLaplaceTransform):
 
         # NB: p is complex (mpc)
 
+    @_precision_safe
     def calc_time_domain_solution(self,fp,t,manual_prec=False):
         r"""Calculate time-domain solution for
         de Hoog, Knight & Stokes algorithm.
